@@ -155,8 +155,8 @@ impl DigitString {
 
     /// Range is inclusive on both ends.
     pub fn is_range_free(&self, start_position: usize, end_position: usize) -> bool {
-        debug_assert!(start_position < end_position);
-        if start_position >= self.buffer.len() {
+        if start_position > end_position || start_position >= self.buffer.len() {
+            // an empty range, or a range beyond the digits placed so far, is free
             return true;
         }
         let left_bound = if end_position >= self.buffer.len() {
